@@ -428,7 +428,7 @@ func validateEncryptedInnerDataIntegrity(els *EncryptedLeaseSet) error {
 		return oops.Errorf("encrypted inner data too small: %d < minimum %d",
 			len(els.encryptedInnerData), ENCRYPTED_LEASESET_MIN_ENCRYPTED_SIZE)
 	}
-	if els.innerLength != uint16(len(els.encryptedInnerData)) {
+	if int(els.innerLength) != len(els.encryptedInnerData) {
 		return oops.Errorf("inner length mismatch: field=%d, data=%d",
 			els.innerLength, len(els.encryptedInnerData))
 	}
